@@ -663,6 +663,32 @@ static Token *subst(Token *tok, MacroArg *args) {
   return head.next;
 }
 
+// Apply the ## operators in the replacement list of an object-like macro.
+static Token *paste_objlike(Token *tok) {
+  Token head = {};
+  Token *cur = &head;
+
+  for (; tok->kind != TK_EOF; tok = tok->next) {
+    if (!equal(tok, "##")) {
+      cur = cur->next = copy_token(tok);
+      continue;
+    }
+
+    if (cur == &head)
+      error_tok(tok, "'##' cannot appear at start of macro expansion");
+    if (tok->next->kind == TK_EOF)
+      error_tok(tok, "'##' cannot appear at end of macro expansion");
+
+    bool has_space = cur->has_space;
+    *cur = *paste(cur, tok->next);
+    cur->has_space = has_space;
+    tok = tok->next;
+  }
+
+  cur->next = tok;
+  return head.next;
+}
+
 // If tok is a macro, expand it and return true.
 // Otherwise, do nothing and return false.
 static bool expand_macro(Token **rest, Token *tok) {
@@ -684,7 +710,7 @@ static bool expand_macro(Token **rest, Token *tok) {
   // Object-like macro application
   if (m->is_objlike) {
     Hideset *hs = hideset_union(tok->hideset, new_hideset(m->name));
-    Token *body = add_hideset(m->body, hs);
+    Token *body = add_hideset(paste_objlike(m->body), hs);
     for (Token *t = body; t->kind != TK_EOF; t = t->next)
       t->origin = tok;
     *rest = append(body, tok->next);
